@@ -121,6 +121,24 @@ def p_c18(facts, rep, tier):
     rep.trust("rustc MIR (nightly, mir-opt-level=0)", "rules/panic_sites.py dispositions", "may-panic API table in rules/panicfree.py")
 
 
+def p_c20(facts, rep, tier):
+    import dirlock
+
+    rep.explanation = (
+        "C20 (structure): in Store::open every file-touching call (open/create of meta, ln, bbn, ht, wal; Meta::read/write; component "
+        "opens; rollback read) and the Ok return are reachable only through a result-checked Flock::lock or through create, whose own "
+        "lock call dominates all its file creations (D1); Flock::lock yields a Flock only on the Ok arm of try_lock_exclusive, which calls "
+        "flock with constant flags LOCK_EX|LOCK_NB and is called from nowhere else (D2); the Flock flows into store::Shared.flock and "
+        "Drop for Shared joins the I/O pool before releasing it (D3); LOCK_UN only from <Flock as Drop>::drop (D4); Flock is not Clone and "
+        "its descriptor is never duplicated (D5). Kernel flock semantics and the documented creation TOCTOU are not decided."
+    )
+    ctx = sync_ctx(facts)
+    n = dirlock.run(facts, rep, ctx.events, ctx.model)
+    rep.floor("dirlock obligations", n, 30)
+    rep.assume("flock(2) with LOCK_EX|LOCK_NB excludes other open file descriptions, across processes", "thread pools other than the io pool are not joined on drop (see DESIGN.md F7)")
+    rep.trust("rustc MIR (nightly, mir-opt-level=0)", "rules/fileclass.py", "libc constant values LOCK_EX=2, LOCK_NB=4, LOCK_UN=8 (linux)")
+
+
 _CTX = {}
 
 
@@ -230,6 +248,7 @@ PROPS = {
     "C14": p_c14,
     "C17": p_c17,
     "C18": p_c18,
+    "C20": p_c20,
 }
 
 
